@@ -15,6 +15,7 @@ from ..anf import R, Unsupported
 from .. import anf
 from .common import dtype_hazard_obligations, struct_ob, formula_ob, guard, last_return, U
 from ..report import AnalysisError
+from ..own import Ownership
 from ..term import Resolver, pmatch, find_all, abstract, anf_of
 
 REL = "inference/approx/conditional.py"
@@ -383,6 +384,39 @@ def run(prog, tier):
                          f"the conditional must evaluate the posterior at a copy of the conditioning point with only coordinate "
                          f"variable_index replaced; body is {body}", REL, cfn.lineno))
 
+    # the functions of the module leave their array arguments alone: the conditioning point the caller passed is also the one a
+    # Conditional keeps (no copy is made), so a coordinate written into it moves every later conditional
+    own2 = Ownership(prog)
+    for fname_ in ("get_conditionals", "conditional_sample", "evaluate_conditional", "piecewise_linear_sample"):
+        f_ = mi.functions.get(fname_)
+        if f_ is None:
+            continue
+        sm_ = own2.summary(mi, None, f_)
+        pn_ = [a_.arg for a_ in f_.args.args]
+        hits_ = {pn_[i_] if i_ < len(pn_) else f"#{i_}": h_ for i_, h_ in sm_.mutates_params.items()}
+        obs.append(struct_ob("conditioning-point", fqual(mi, f_) + "[arguments-not-mutated]", not hits_,
+                             "an array argument is written in place: " + "; ".join(f"`{k_}` at {v_[:1]}" for k_, v_ in list(hits_.items())[:2]), REL,
+                             f_.lineno, tier="F"))
+    # a local that is just another name for a second local (`w = means`) and is then updated in place changes that second local too:
+    # a later read of it (delta = .. / means) sees the updated buffer
+    for fname_, f_ in mi.functions.items():
+        alias = {}
+        for st_ in f_.body:
+            if isinstance(st_, ast.Assign) and len(st_.targets) == 1 and isinstance(st_.targets[0], ast.Name) and isinstance(st_.value, ast.Name):
+                alias[st_.targets[0].id] = (st_.value.id, st_.lineno)
+        bad_al = []
+        for st_ in ast.walk(f_):
+            tg_ = st_.target if isinstance(st_, ast.AugAssign) else st_.targets[0] if isinstance(st_, ast.Assign) and isinstance(st_.targets[0], ast.Subscript) else None
+            b_ = tg_
+            while isinstance(b_, ast.Subscript):
+                b_ = b_.value
+            if isinstance(b_, ast.Name) and b_.id in alias and (isinstance(st_, ast.AugAssign) or isinstance(tg_, ast.Subscript)):
+                other, l0 = alias[b_.id]
+                later = [x for x in ast.walk(f_) if isinstance(x, ast.Name) and x.id == other and isinstance(x.ctx, ast.Load) and x.lineno > st_.lineno]
+                if later:
+                    bad_al.append(f"line {st_.lineno}: `{U(st_)[:60]}` updates `{b_.id}`, another name for `{other}` (line {l0}), which is read again at line {later[0].lineno}")
+        if bad_al:
+            obs.append(struct_ob("delta-form", fqual(mi, f_) + "[no-aliased-update]", False, "; ".join(bad_al[:2]), REL, f_.lineno, tier="F"))
     from .common import column_loop_obligations
     obs.extend(column_loop_obligations(prog, "every-parameter-covered", REL, ["get_conditionals", "conditional_sample"]))
     # conditional_sample draws every column with the sampler decided above (piecewise_linear_sample), from that column's own axis and
